@@ -309,7 +309,10 @@ class CircuitOperation(ops.Operation):
         if len(self.qubits) > 1 or not protocols.has_unitary(self):
             return NotImplemented
 
-        unitaries = [protocols.unitary(op) for op in self.circuit.all_operations()]
+        circuit: cirq.AbstractCircuit = self.circuit
+        if self.param_resolver:
+            circuit = protocols.resolve_parameters(circuit, self.param_resolver, recursive=False)
+        unitaries = [protocols.unitary(op) for op in circuit.all_operations()]
         dim = max((u.shape for u in unitaries), default=(1,))[0]
         u = np.eye(dim, dtype=np.complex128)
         u = reduce(lambda u1, u2: np.dot(u1, u2, out=u), reversed(unitaries), u)
